@@ -1,37 +1,62 @@
 # plan and claim for C20 (concurrency). Every job is a separate process, so every job also races the process-wide
 # singletons once (its first case). GOMAXPROCS is a workload dimension.
+# The per-case deadline is raised to 120 s: the workload decides itself whether a goroutine of the concurrent phase
+# never returns (bounded progress: 8 s suspicion, then the whole sequential replay, a re-run of the stuck call alone and
+# a further 6 s without any movement of the goroutine's call counter) and needs up to ~25 s for that verdict.
 def _jobs():
     out = []
     for procs in (2, 4, 16):
-        out.append(J("c20.rounds", configs=["avx2"], variant="race", shards=(3, 12), floor=10, procs=procs))
-        out.append(J("c20.rounds", configs=["noaes"], variant="race", shards=(2, 6), floor=10, procs=procs))
+        out.append(J("c20.rounds", configs=["avx2"], variant="race", shards=(3, 12), floor=10, procs=procs, deadline="120s"))
+        out.append(J("c20.rounds", configs=["noaes"], variant="race", shards=(2, 6), floor=10, procs=procs, deadline="120s"))
     # AES-NI without PCLMULQDQ: the table-driven GCM over assembly batches is a separate AEAD type
-    out.append(J("c20.rounds", configs=["noclmul"], variant="race", shards=(3, 8), floor=10, procs=8))
-    out.append(J("c20.rounds", configs=["purego"], variant="race-purego", shards=(2, 8), floor=10, procs=8))
+    out.append(J("c20.rounds", configs=["noclmul"], variant="race", shards=(3, 8), floor=10, procs=8, deadline="120s"))
+    out.append(J("c20.rounds", configs=["purego"], variant="race-purego", shards=(2, 8), floor=10, procs=8, deadline="120s"))
     return out
 
 
 PLAN = dict(
     level="exploration",
-    rule="every child process first races the process-wide singletons (20 goroutines, two per each of "
-         "10 first-use operations, as their very first library call), then runs rounds: cold shared objects (SM2 private/public key, ECDH key, SM9 sign/encrypt "
-         "master and user keys unmarshalled from bytes, SM4 block + shared GCM AEAD, certificate pools filled from PEM), 4/8/16 "
-         "goroutines released from a barrier, each executing a seeded list of 3-8 of 40 operations (on the shared objects and on objects only that goroutine knows, so that scratch space shared between objects is exposed) with scripted randomness, then "
-         "the same lists sequentially on a second cold object set; results must be identical and the race detector silent. "
-         "Distinct = class keys (configuration | goroutines / simultaneous first calls observed / completion order of the first "
-         "four finishers / GOMAXPROCS, plus the first-use operations that were contended)",
+    rule="every child process first races the process-wide singletons (34 goroutines, two per each of 17 first-use "
+         "operations - key generation, signing, encryption, key exchange, certificate creation and verification, AEADs, on "
+         "sm2p256v1, on a NIST curve and on SM9 - as their very first library calls), then runs rounds: cold shared objects "
+         "(SM2 private/public key, SM2-scheme keys on NIST P-256 [P-521 in the purego build] and P-384 incl. a shared "
+         "*ecdsa.PrivateKey, ECDH key, SM9 sign/encrypt master and user keys unmarshalled from bytes, SM4 block + shared GCM "
+         "(12- and 16-byte nonces) and CCM AEADs, certificate pools filled lazily from PEM and from parsed certificates with "
+         "a constraint callback), 4/8/16 goroutines released from a barrier, each executing a seeded list of 3-8 of 117 "
+         "operations with scripted randomness, then the same lists sequentially on a second cold object set; results must "
+         "be identical, round-trip laws of composite operations must hold, every goroutine must finish (bounded progress), "
+         "and the race detector must be silent. Operations: first and steady use of the shared objects (sign, verify, "
+         "encrypt, decrypt, wrap/unwrap, envelopes, seal/open, chain verification); DERIVATIONS from a shared parent "
+         "followed by use of the derived object (GenerateUserKey of both SM9 master kinds, PublicKey()/Public()/"
+         "MasterPublic() accessors, ECDH()/PublicKeyToECDH conversions, key objects constructed from the parent's fields or "
+         "encodings, CertPool.Clone and Clone+AddCert, every mode/AEAD/MAC constructor over the shared block); key "
+         "agreement run to the end (SM2 exchange in both roles on sm2p256v1 and on the legacy-curve path, SM2-MQV on ECDH "
+         "keys, SM9 exchange between the shared user key and keys derived during the round); objects only one goroutine "
+         "knows (one such call in every list, several new objects per call). Round kinds: same first operation on half of "
+         "the goroutines / pool-heavy / family rounds (first call of every goroutine works on ONE parent object: sm2, "
+         "legacy curve, ecdh, sm9 sign master, sm9 encrypt master, block, pool, own objects). "
+         "Distinct = class keys (configuration | round kind and goroutines / simultaneous first calls observed / completion "
+         "order of the first four finishers / GOMAXPROCS, plus the first-use operations that were contended)",
     jobs=_jobs(),
     assumptions=["Go race detector (happens-before; bounded shadow history, hence many short rounds)",
-                 "schedules are those the Go scheduler produced under GOMAXPROCS 2/4/16 - not enumerated"],
+                 "schedules are those the Go scheduler produced under GOMAXPROCS 2/4/16 - not enumerated",
+                 "a goroutine is reported as hung only if its call counter did not move for >= 14 s of wall time during which "
+                 "the coordinator completed the sequential replay of the whole round and a solitary re-run of the stuck call",
+                 "purego build: the standard library's P-256 has no order inversion (crypto/elliptic panics), so NIST P-521 "
+                 "takes the place of P-256 for the legacy-curve keys there"],
 )
 
 CLAIM = dict(
-    text="Runtime monitoring under the Go race detector: cold shared key objects, ciphers, AEADs and certificate pools are used for the "
+    text="Runtime monitoring under the Go race detector: cold shared key objects (SM2 on sm2p256v1 and, through the library's "
+         "math/big path, on NIST curves; ECDH; SM9 master and user keys), ciphers, AEADs and certificate pools are used for the "
          "first time concurrently (so every sync.Once / lazy cache is raced at initialisation), in fresh processes for the "
-         "process-wide singletons; every concurrent result is compared with a sequential replay of the same deterministic call "
-         "list; panics in goroutines are caught. The evidence reports how many rounds really had overlapping first-use calls and "
-         "how many distinct completion orders were seen.",
+         "process-wide singletons; objects derived from a shared parent while the parent is first used (user keys, public keys "
+         "from accessors, ECDH conversions, re-constructed keys, pool clones, modes/AEADs/MACs over the shared block) are then "
+         "used; key agreement is run to the end; every concurrent result is compared with a sequential replay of the same "
+         "deterministic call list, every goroutine must return (bounded progress, confirmed by the sequential replay and a "
+         "solitary re-run before it is reported), panics in goroutines are caught. The evidence reports how many rounds really "
+         "had overlapping first-use calls, the round kinds and how many distinct completion orders were seen.",
     design_ref="DESIGN.md 6 (C20)",
     note="trusted: race detector, Go runtime; only interleavings the scheduler produced are observed",
-    technique="race detector + concurrent-vs-sequential result equality on cold shared objects",
+    technique="race detector + concurrent-vs-sequential result equality + bounded progress on cold shared and derived objects",
 )
